@@ -109,9 +109,12 @@ def r14_3(ctx):
             srcs = fl.op_sources(t["args"][0])
             names = {x[1] for x in srcs if x[0] == "call"}
             # either `parsed.unwrap_or_default()`, or the two arms of a match: Options::default() / the strictly parsed value
-            dflt = any(n.endswith("Option::<T>::unwrap_or_default") for n in names) or \
+            # `opt.map_or_else(Default::default, |json| parse(json))`: the first argument must be the Default impl itself
+            moe = [tt for _, tt in calls(b) if callee_name(tt).endswith("Option::<T>::map_or_else")]
+            moe_default = bool(moe) and all(((op_const(tt["args"][1]) or {}).get("fn") or "").endswith("Default::default") for tt in moe if len(tt["args"]) > 1)
+            dflt = any(n.endswith("Option::<T>::unwrap_or_default") for n in names) or moe_default or \
                 (any(n.endswith("::default") and "Default" in n for n in names) and any(re.search(r"Result::<T, E>::(expect|unwrap)$", n) for n in names))
-            odd = sorted(n for n in names if not re.search(r"(Option::<T>::(unwrap_or_default|map)|Result::<T, E>::(expect|unwrap)|::default|from_str|get_transform_plugin_config|::clone|::into|::from|::as_str|::as_ref|::deref)$", n))
+            odd = sorted(n for n in names if not re.search(r"(Option::<T>::(unwrap_or_default|map|map_or_else)|Result::<T, E>::(expect|unwrap)|::default|from_str|get_transform_plugin_config|::clone|::into|::from|::as_str|::as_ref|::deref)$", n))
             ok = dflt and not odd
             r.ob("options argument = parsed-config.unwrap_or_default()", ok, C.mloc(b, t), "sources: %s" % sorted(n.split("::")[-1] for n in names) + ("; unexpected: %s" % odd if odd else ""))
             # no field store into the options local
